@@ -9,7 +9,8 @@ Correspondence (model = lean/Cutadapt/Index.lean through the driver ops of Drive
 
 Oracle, written from the property text (independent of the model; brute-force distances from oracle_align.dist):
   (a) soundness   every match returned through the index: 0 <= rstart <= rstop <= len(read); the removed affix has edit
-                  (Hamming if indels are off) distance to the adapter equal to match.errors; errors <= int(rate*len)
+                  (Hamming if indels are off *for that adapter*: `;noindels` is a per-adapter setting and one index may mix
+                  both kinds) distance to the adapter equal to match.errors; errors <= int(rate*len)
   (b) uniqueness  N-free read on which exactly one indexed adapter has an anchored occurrence within its tolerance
                   -> the index returns that adapter
   (c) agreement   equal lengths, no indels, N-free read, nearest adapter strictly closer than the second nearest
@@ -65,11 +66,20 @@ def _mods():
     return A
 
 
+def flags_of(indels, n):
+    """`indels` of a set: one bool for all adapters, or one bool per adapter (some adapters carry `;noindels`)"""
+    return [bool(indels)] * n if isinstance(indels, bool) else [bool(x) for x in indels]
+
+
+def any_indels(indels):
+    return indels if isinstance(indels, bool) else any(indels)
+
+
 def build_real(kind, indels, ads):
     """(adapters, indexed, None) or (None, None, error-token)"""
     A = _mods()
     cls = A.PrefixAdapter if kind == "prefix" else A.SuffixAdapter
-    adapters = [cls(s, max_errors=r, indels=indels) for s, r in ads]
+    adapters = [cls(s, max_errors=r, indels=f) for (s, r), f in zip(ads, flags_of(indels, len(ads)))]
     try:
         ix = (A.IndexedPrefixAdapters if kind == "prefix" else A.IndexedSuffixAdapters)(adapters)
     except ValueError:
@@ -90,7 +100,9 @@ def show(adapters, m):
 
 
 def set_line(op, kind, indels, ads, tail):
-    return (f"{op} {kind} {int(indels)} {len(ads)} " + " ".join(f"{hx(s)} {bits(r)}" for s, r in ads)
+    fl = flags_of(indels, len(ads))
+    tok = str(int(fl[0])) if len(set(fl)) <= 1 and fl else "m" + "".join(str(int(f)) for f in fl)
+    return (f"{op} {kind} {tok} {len(ads)} " + " ".join(f"{hx(s)} {bits(r)}" for s, r in ads)
             + ("" if not tail else " " + " ".join(hx(x) for x in tail)))
 
 
@@ -153,7 +165,7 @@ def soundness(ctx, kind, indels, ads, adapters, read, m, how):
         return
     anchored = (m.rstart == 0) if kind == "prefix" else (m.rstop == n)
     aff = read[:m.rstop] if kind == "prefix" else read[m.rstart:]
-    d = affix_distance(m.adapter.sequence, aff, indels)
+    d = affix_distance(m.adapter.sequence, aff, bool(m.adapter.indels))   # the adapter's own setting
     if not anchored or m.astart != 0 or m.astop != len(m.adapter.sequence) or d is None or d != m.errors:
         fail(ctx, SIG_DIST, "reported errors are not the distance between the removed affix and the adapter", inp,
              show(adapters, m), f"distance({m.adapter.sequence}, {aff}) = {d}")
@@ -169,17 +181,19 @@ def oracle_read(ctx, kind, indels, ads, adapters, ix, read, perms):
         soundness(ctx, kind, indels, ads, adapters, read, m, "index")
         if m.errors > 0:
             ctx.nontriv(("I", kind, indels, tuple(ads), read))
+        if not m.adapter.indels and any(a.indels for a in adapters):
+            ctx.count("reach:match-of-noindels-adapter-in-mixed-set")
         if len(read) < ix._index._lengths[0]:
             ctx.count("reach:match-on-read-shorter-than-an-indexed-length")      # class of 6d0af29
     up = read.upper()
     if "N" in up:
         ctx.count("read:with-N")
-        if m is not None and indels:
+        if m is not None and m.adapter.indels:
             ctx.count("reach:match-with-N-and-indels")                           # class of ee05d18
         return m
     inp = dict(kind=kind, indels=indels, adapters=ads, read=read)
     # (b)
-    occ = [best_occurrence(kind, a.sequence, tol(a), indels, read) for a in adapters]
+    occ = [best_occurrence(kind, a.sequence, tol(a), bool(a.indels), read) for a in adapters]
     present = [i for i, d in enumerate(occ) if d is not None]
     if len(present) == 1:
         ctx.count("oracle:unique-occurrence")
@@ -188,7 +202,7 @@ def oracle_read(ctx, kind, indels, ads, adapters, ix, read, perms):
                  show(adapters, m), f"adapter {present[0]} ({adapters[present[0]].sequence}) at distance {occ[present[0]]}")
     # (c)
     L = len(adapters[0].sequence)
-    if not indels and len(adapters) >= 2 and all(len(a.sequence) == L for a in adapters) and len(read) >= L:
+    if not any(a.indels for a in adapters) and len(adapters) >= 2 and all(len(a.sequence) == L for a in adapters) and len(read) >= L:
         aff = read[:L] if kind == "prefix" else read[len(read) - L:]
         dl = [affix_distance(a.sequence, aff, False) for a in adapters]
         ds = sorted(dl)
@@ -219,7 +233,7 @@ def make_perms(ctx, kind, indels, ads, adapters, ix, extra):
     """[(order, adapters in that order, index over them, MultipleAdapters over them)] — only needed for clause (c)"""
     A = _mods()
     L = len(adapters[0].sequence)
-    if indels or len(adapters) < 2 or not all(len(a.sequence) == L for a in adapters):
+    if any(a.indels for a in adapters) or len(adapters) < 2 or not all(len(a.sequence) == L for a in adapters):
         return []
     n = len(adapters)
     orders = [tuple(range(n))]
@@ -279,7 +293,7 @@ def near_duplicate(rng, s, indels, minlen=4):
 
 
 def gen_set(ctx, maxlen, heavy_ok):
-    """(kind, indels, [(seq, rate)])"""
+    """(kind, indels, [(seq, rate)]); `indels` is one bool, or one bool per adapter in about a third of the sets"""
     rng = ctx.rng
     kind = rng.choice(["prefix", "suffix"])
     indels = rng.random() < 0.5
@@ -319,6 +333,15 @@ def gen_set(ctx, maxlen, heavy_ok):
             ads.append((s, shared))
         else:
             ads.append((s, rate_for(rng, len(s), k)))
+    if n >= 2 and rng.random() < 0.35:
+        # per-adapter `;noindels`: at least one adapter of each kind; the tolerances were chosen above (k-3 sets stay small
+        # unless heavy_ok because the lengths were limited for `indels`)
+        fl = [rng.random() < 0.5 for _ in range(n)]
+        i, j = rng.sample(range(n), 2)
+        fl[i], fl[j] = True, False
+        if not indels and kmax == 3 and not heavy_ok:
+            ads = [(s, r) if len(s) <= 7 else (s, rate_for(rng, len(s), rng.randint(0, 2))) for s, r in ads]
+        indels = tuple(fl)
     return kind, indels, ads
 
 
@@ -390,7 +413,7 @@ def run_set(ctx, kind, indels, ads, reads, lookups, dumps, extra_perms, dump):
         lookups.append((set_line("indexlookup", kind, indels, ads, reads), err))
         ctx.count("ctor-" + err.split()[0])
         return
-    ctx.count(f"set:{kind}:{'indels' if indels else 'hamming'}")
+    ctx.count(f"set:{kind}:{'mixed-indels' if not isinstance(indels, bool) and len(set(indels)) > 1 else 'indels' if any_indels(indels) else 'hamming'}")
     ctx.count("set:lengths-" + ("one" if len(ix._index._lengths) == 1 else "many"))
     if ix._index._ambiguous:
         ctx.count("set:with-ambiguous-keys")
@@ -480,6 +503,10 @@ FIXED_SETS = [
     ("suffix", False, [("TCGTACGT", 0.125), ("CCGTACGT", 0.125), ("ACGTACGT", 0.125)], ["AAAAACGTACGA", "AAAAACGTACGT"]),
     ("prefix", False, [("ACGTACGT", 0.125), ("TCGTACGT", 0.125), ("CCGTACGT", 0.125)], ["ACGTACGTAAAA", "GCGTACGTAA"]),
     ("prefix", True, [("ACGTACGT", 0.125), ("TTTTGGGG", 0.125)], ["ACGTACGTN", "ACGTACGTNA", "ACGTACGNT", "ACGTACGTTA"]),
+    # mixed per-adapter indel settings (-g "^ACGTACGTAC;noindels" -g "^TTGCAATTGC"): the noindels adapter must not match with an indel
+    ("prefix", (False, True), [("ACGTACGTAC", 0.1), ("TTGCAATTGC", 0.1)], ["ACGTACCGTACACACCGTTTT", "ACGTACGTACAA", "ACGTACGTTCAA", "TTGCATTGCAAA", "ACGTAGTACAAA"]),
+    ("suffix", (True, False), [("ACGTACGTAC", 0.1), ("TTGCAATTGC", 0.1)], ["AAAATTGCATTGC", "AAAATTGCAAATTGC", "AAAACGTACGTAC", "AAACGTACGGTAC"]),
+    ("prefix", (False, True, False), [("ACGTACGT", 0.25), ("ACGTTCGT", 0.125), ("TCGTACGA", 0.3)], ["ACGTCGTAA", "ACGTTTCGTAA", "ACGAACGTAA", "TCGACGAAAA"]),
     ("prefix", False, [("ACGT", 0.0), ("ACGTAC", 0.0)], ["ACGTAC", "ACGT", "ACGTA", "ACG", ""]),
     ("suffix", False, [("ACGT", 0.0), ("ACACGT", 0.0)], ["ACACGT", "ACGT", "CACGT", "CGT", ""]),
 ]
@@ -498,7 +525,7 @@ def random_sets(ctx, nsets, reads_per_set, maxlen, heavy_ok, extra_perms, dump_e
     tasks = [(kind, indels, ads, reads, 2, True, ctx.seed * 104729 + i) for i, (kind, indels, ads, reads) in enumerate(FIXED_SETS)]
     for i in range(nsets):
         kind, indels, ads = gen_set(ctx, maxlen, ctx.rng.random() < heavy_ok)
-        reads = gen_reads(ctx, kind, indels, ads, reads_per_set)
+        reads = gen_reads(ctx, kind, any_indels(indels), ads, reads_per_set)
         small = sum((4 * len(s)) ** tolk(s, r) for s, r in ads) < 4000
         tasks.append((kind, indels, ads, reads, extra_perms, small and i % dump_every == 0, ctx.seed * 104729 + 1000 + i))
     with mp.get_context("fork").Pool(workers) as pool:
@@ -584,7 +611,7 @@ def _exh_worker(args):
             complete = False
             break
         for kind in ("prefix", "suffix"):
-            for indels in (False, True):
+            for indels in (False, True, (False, True), (True, False)):
                 for k in (0, 1):
                     ads = [(first, 0.0 if k == 0 else _k1_rate(len(first))), (second, 0.0 if k == 0 else _k1_rate(len(second)))]
                     adapters, ix, err = build_real(kind, indels, ads)
@@ -641,7 +668,7 @@ def exhaustive_pairs(ctx, max_a, max_r, budget_s, workers=16, nparts=8):
     per_len = {L: (sum(1 for f in by_len[L] if full[f]), len(by_len[L])) for L in sorted(by_len)}
     ctx.notes.append(
         f"small scope: first adapter = one representative per renaming of the alphabet (length <= {max_a}), second adapter = every other "
-        f"string of length <= {max_a} (ordered pairs), both adapter types, indels on/off, k in {{0,1}}, every read over ACGT of length <= {max_r}: "
+        f"string of length <= {max_a} (ordered pairs), both adapter types, indels on/off/first only/second only, k in {{0,1}}, every read over ACGT of length <= {max_r}: "
         f"{done} of {total_pairs} adapter pairs done ({'complete' if complete else 'time budget reached'}); first adapters finished against "
         f"every second adapter, by length: " + ", ".join(f"{L}: {a}/{b}" for L, (a, b) in per_len.items())
         + f"; {evals} oracle evaluations on the real code")
@@ -653,7 +680,8 @@ def run(ctx):
     _mods()
     ctx.rule = ("sets of 2-8 anchored 5' or 3' adapters over ACGT, lengths 4-12 (thorough: up to 14), 0-3 allowed errors (rates and absolute "
                 "counts with int(len*rate) in 0..3), equal and mixed lengths, near-duplicates (1-2 substitutions/indels apart, one a prefix/"
-                "suffix of another, several variants at one position), indels on/off; reads: mutated adapter copy + random tail/head, exactly one "
+                "suffix of another, several variants at one position), indels on/off for the whole set or per adapter (about a third of the sets "
+                "mix adapters with and without indels, with individual error rates); reads: mutated adapter copy + random tail/head, exactly one "
                 "adapter, shorter than the longest indexed string, random, two adapters, with N, lower-case; non-trivial = distinct (set, read) "
                 "with an indexed match that has >= 1 error, or a non-empty string with k >= 1 for edit_environment")
     sphere_env_cases(ctx, ctx.scale(1500, 8000))
@@ -676,6 +704,7 @@ def replay(ctx, rp):
         print("nothing to replay; re-run the check")
         return 2
     kind, indels, ads, read = inp["kind"], inp["indels"], [tuple(x) for x in inp["adapters"]], inp["read"]
+    indels = indels if isinstance(indels, bool) else tuple(indels)
     order = inp.get("order")
     adapters, ix, err = build_real(kind, indels, ads)
     perms = make_perms(ctx, kind, indels, ads, adapters, ix, 0)
